@@ -35,6 +35,12 @@ pub enum Op {
     Tag(Vec<u8>),
     AddSignature(MSignature),
     AddRecipient(MRecipient),
+    // closure-taking helpers (effect on the built value + the bytes handed to the closure)
+    CreateSignature { aad: Vec<u8>, ret: Vec<u8>, fallible: bool, detached: Option<Vec<u8>> },
+    AddCreatedSignature { sig: MSignature, aad: Vec<u8>, ret: Vec<u8>, fallible: bool, detached: Option<Vec<u8>> },
+    CreateTag { aad: Vec<u8>, ret: Vec<u8>, fallible: bool },
+    /// context: 0 Encrypt, 1 Encrypt0, 2 Enc_Recipient, 3 Mac_Recipient, 4 Rec_Recipient (only used by the recipient builder)
+    CreateCiphertext { context: u8, pt: Vec<u8>, aad: Vec<u8>, ret: Vec<u8>, fallible: bool },
     // key
     Kty(MLabel),
     BaseIv(Vec<u8>),
@@ -103,6 +109,28 @@ pub const BUILDERS: [BK; 19] = [
     BK::SuppPub,
     BK::Kdf,
 ];
+
+thread_local! {
+    /// bytes the real builder handed to the caller's closure during the current call
+    static SEEN: std::cell::RefCell<Option<Vec<u8>>> = const { std::cell::RefCell::new(None) };
+    /// bytes the model says the closure must receive
+    static WANT: std::cell::RefCell<Option<Vec<u8>>> = const { std::cell::RefCell::new(None) };
+}
+fn set_seen(d: &[u8]) {
+    SEEN.with(|s| *s.borrow_mut() = Some(d.to_vec()));
+}
+fn set_want(d: Vec<u8>) {
+    WANT.with(|s| *s.borrow_mut() = Some(d));
+}
+fn enc_ctx(i: u8) -> (coset::EncryptionContext, &'static str) {
+    match i {
+        0 => (coset::EncryptionContext::CoseEncrypt, "Encrypt"),
+        1 => (coset::EncryptionContext::CoseEncrypt0, "Encrypt0"),
+        2 => (coset::EncryptionContext::EncRecipient, "Enc_Recipient"),
+        3 => (coset::EncryptionContext::MacRecipient, "Mac_Recipient"),
+        _ => (coset::EncryptionContext::RecRecipient, "Rec_Recipient"),
+    }
+}
 
 fn alg(i: i64) -> Option<iana::Algorithm> {
     iana::Algorithm::from_i64(i)
@@ -173,31 +201,47 @@ pub fn palette(bk: BK, ctx: &mut Ctx) -> Vec<Op> {
         BK::Sign => {
             let mut v = msg_common;
             v.extend([Op::Payload(vec![]), Op::Payload(b(&[1])), Op::AddSignature(sig.clone()), Op::AddSignature(sig2.clone())]);
+            for (f, d) in [(false, None), (true, None), (false, Some(b(&[8, 8]))), (true, Some(b(&[8])))] {
+                v.push(Op::AddCreatedSignature { sig: sig.clone(), aad: b(&[0xaa]), ret: b(&[0xd1, f as u8]), fallible: f, detached: d });
+            }
             v
         }
         BK::Sign1 => {
             let mut v = msg_common;
             v.extend([Op::Payload(vec![]), Op::Payload(b(&[1])), Op::Signature(vec![]), Op::Signature(b(&[9]))]);
+            for (f, d) in [(false, None), (true, None), (false, Some(b(&[8, 8]))), (true, Some(b(&[8])))] {
+                v.push(Op::CreateSignature { aad: b(&[0xaa]), ret: b(&[0xd2, f as u8]), fallible: f, detached: d });
+            }
             v
         }
         BK::Mac => {
             let mut v = msg_common;
             v.extend([Op::Payload(vec![]), Op::Payload(b(&[1])), Op::Tag(vec![]), Op::Tag(b(&[3])), Op::AddRecipient(rcp.clone()), Op::AddRecipient(MRecipient::default())]);
+            v.extend([Op::CreateTag { aad: b(&[0xaa]), ret: b(&[0xd3]), fallible: false }, Op::CreateTag { aad: vec![], ret: b(&[0xd4]), fallible: true }]);
             v
         }
         BK::Mac0 => {
             let mut v = msg_common;
             v.extend([Op::Payload(vec![]), Op::Payload(b(&[1])), Op::Tag(vec![]), Op::Tag(b(&[3]))]);
+            v.extend([Op::CreateTag { aad: b(&[0xaa]), ret: b(&[0xd3]), fallible: false }, Op::CreateTag { aad: vec![], ret: b(&[0xd4]), fallible: true }]);
             v
         }
         BK::Encrypt | BK::Recipient => {
             let mut v = msg_common;
             v.extend([Op::Ciphertext(vec![]), Op::Ciphertext(b(&[1])), Op::AddRecipient(rcp.clone()), Op::AddRecipient(MRecipient::default())]);
+            for c in 0..5u8 {
+                for f in [false, true] {
+                    if bk == BK::Recipient || c == 0 {
+                        v.push(Op::CreateCiphertext { context: c, pt: b(&[1, 2]), aad: b(&[0xaa, c]), ret: b(&[0xd5, c, f as u8]), fallible: f });
+                    }
+                }
+            }
             v
         }
         BK::Encrypt0 => {
             let mut v = msg_common;
             v.extend([Op::Ciphertext(vec![]), Op::Ciphertext(b(&[1]))]);
+            v.extend([Op::CreateCiphertext { context: 1, pt: b(&[1]), aad: b(&[0xaa]), ret: b(&[0xd6]), fallible: false }, Op::CreateCiphertext { context: 1, pt: vec![], aad: vec![], ret: b(&[0xd7]), fallible: true }]);
             v
         }
         BK::Key(_) => vec![
@@ -386,7 +430,22 @@ pub fn run_seq(ctx: &mut Ctx, bk: BK, ops: &[Op]) {
                 applied.push(op.clone());
                 ctx.eval();
                 let bb = b;
-                match step(|| $rstep(bb, op)) {
+                SEEN.with(|s| *s.borrow_mut() = None);
+                let st = step(|| $rstep(bb, op));
+                let want = WANT.with(|s| s.borrow_mut().take());
+                let seen = SEEN.with(|s| s.borrow_mut().take());
+                if expect_panic && seen.is_some() {
+                    ctx.violation(&format!("C19/closure-called-before-refusal/{:?}/{}", bk, op_name(op)), format!("{} handed data to the caller's closure although the call must be refused", op_name(op)), J::obj(vec![("builder", J::Str(format!("{:?}", bk))), ("calls", report_seq(&applied))]));
+                    return;
+                }
+                if let (Some(w), false) = (&want, expect_panic) {
+                    ctx.count(&format!("closure-data-checked:{:?}:{}", bk, op_name(op)));
+                    if seen.as_ref() != Some(w) {
+                        ctx.violation(&format!("C19/closure-data/{:?}/{}", bk, op_name(op)), format!("{} handed {} to the caller's closure; the builder's state at the call prescribes {}", op_name(op), seen.as_ref().map(|x| super::structs::short(x)).unwrap_or_else(|| "<nothing>".into()), super::structs::short(w)), J::obj(vec![("builder", J::Str(format!("{:?}", bk))), ("calls", report_seq(&applied))]));
+                        return;
+                    }
+                }
+                match st {
                     Step::Next(nb) => {
                         if expect_panic {
                             ctx.violation(&format!("C19/reserved-label-accepted/{:?}/{}", bk, op_name(op)), format!("{} with a label reserved for a typed field must be refused (documented panic) but was applied", op_name(op)), J::obj(vec![("builder", J::Str(format!("{:?}", bk))), ("calls", report_seq(&applied))]));
@@ -467,6 +526,16 @@ pub fn run_seq(ctx: &mut Ctx, bk: BK, ops: &[Op]) {
                     Op::Unprotected(h) => m.unprot = h.clone(),
                     Op::Payload(p) => m.payload = Some(p.clone()),
                     Op::AddSignature(s) => m.sigs.push(s.clone()),
+                    Op::AddCreatedSignature { sig, aad, ret, detached, .. } => {
+                        if detached.is_some() && m.payload.is_some() {
+                            return Some(true);
+                        }
+                        let pl: Vec<u8> = detached.clone().or(m.payload.clone()).unwrap_or_default();
+                        set_want(structure("Signature", &[&prot_slot(&m.prot), &prot_slot(&sig.prot), aad, &pl]));
+                        let mut s2 = sig.clone();
+                        s2.sig = ret.clone();
+                        m.sigs.push(s2);
+                    }
                     _ => return None,
                 }
                 Some(false)
@@ -477,6 +546,28 @@ pub fn run_seq(ctx: &mut Ctx, bk: BK, ops: &[Op]) {
                     Op::Unprotected(h) => b.unprotected(capi::b_header(h)?),
                     Op::Payload(p) => b.payload(p.clone()),
                     Op::AddSignature(s) => b.add_signature(capi::b_sig(s)?),
+                    Op::AddCreatedSignature { sig, aad, ret, fallible, detached } => {
+                        let r = ret.clone();
+                        let cs = capi::b_sig(sig)?;
+                        match (fallible, detached) {
+                            (false, None) => b.add_created_signature(cs, aad, |d| {
+                                set_seen(d);
+                                r
+                            }),
+                            (true, None) => b.try_add_created_signature(cs, aad, |d| -> Result<Vec<u8>, ()> {
+                                set_seen(d);
+                                Ok(r)
+                            }).ok()?,
+                            (false, Some(p)) => b.add_detached_signature(cs, p, aad, |d| {
+                                set_seen(d);
+                                r
+                            }),
+                            (true, Some(p)) => b.try_add_detached_signature(cs, p, aad, |d| -> Result<Vec<u8>, ()> {
+                                set_seen(d);
+                                Ok(r)
+                            }).ok()?,
+                        }
+                    }
                     _ => return None,
                 })
             },
@@ -492,6 +583,14 @@ pub fn run_seq(ctx: &mut Ctx, bk: BK, ops: &[Op]) {
                     Op::Unprotected(h) => m.unprot = h.clone(),
                     Op::Payload(p) => m.payload = Some(p.clone()),
                     Op::Signature(s) => m.sig = s.clone(),
+                    Op::CreateSignature { aad, ret, detached, .. } => {
+                        if detached.is_some() && m.payload.is_some() {
+                            return Some(true);
+                        }
+                        let pl: Vec<u8> = detached.clone().or(m.payload.clone()).unwrap_or_default();
+                        set_want(structure("Signature1", &[&prot_slot(&m.prot), aad, &pl]));
+                        m.sig = ret.clone();
+                    }
                     _ => return None,
                 }
                 Some(false)
@@ -502,6 +601,27 @@ pub fn run_seq(ctx: &mut Ctx, bk: BK, ops: &[Op]) {
                     Op::Unprotected(h) => b.unprotected(capi::b_header(h)?),
                     Op::Payload(p) => b.payload(p.clone()),
                     Op::Signature(s) => b.signature(s.clone()),
+                    Op::CreateSignature { aad, ret, fallible, detached } => {
+                        let r = ret.clone();
+                        match (fallible, detached) {
+                            (false, None) => b.create_signature(aad, |d| {
+                                set_seen(d);
+                                r
+                            }),
+                            (true, None) => b.try_create_signature(aad, |d| -> Result<Vec<u8>, ()> {
+                                set_seen(d);
+                                Ok(r)
+                            }).ok()?,
+                            (false, Some(p)) => b.create_detached_signature(p, aad, |d| {
+                                set_seen(d);
+                                r
+                            }),
+                            (true, Some(p)) => b.try_create_detached_signature(p, aad, |d| -> Result<Vec<u8>, ()> {
+                                set_seen(d);
+                                Ok(r)
+                            }).ok()?,
+                        }
+                    }
                     _ => return None,
                 })
             },
@@ -518,12 +638,34 @@ pub fn run_seq(ctx: &mut Ctx, bk: BK, ops: &[Op]) {
                     Op::Payload(p) => m.payload = Some(p.clone()),
                     Op::Tag(t) => m.tag = t.clone(),
                     Op::AddRecipient(r) => m.recipients.push(r.clone()),
+                    Op::CreateTag { aad, ret, .. } => {
+                        let pl = match &m.payload {
+                            Some(p) => p.clone(),
+                            None => return Some(true),
+                        };
+                        set_want(structure("MAC", &[&prot_slot(&m.prot), aad, &pl]));
+                        m.tag = ret.clone();
+                    }
                     _ => return None,
                 }
                 Some(false)
             },
             |b: coset::CoseMacBuilder, op: &Op| -> Option<coset::CoseMacBuilder> {
                 Some(match op {
+                    Op::CreateTag { aad, ret, fallible } => {
+                        let r = ret.clone();
+                        if *fallible {
+                            b.try_create_tag(aad, |d| -> Result<Vec<u8>, ()> {
+                                set_seen(d);
+                                Ok(r)
+                            }).ok()?
+                        } else {
+                            b.create_tag(aad, |d| {
+                                set_seen(d);
+                                r
+                            })
+                        }
+                    }
                     Op::Protected(h) => b.protected(capi::b_header(h)?),
                     Op::Unprotected(h) => b.unprotected(capi::b_header(h)?),
                     Op::Payload(p) => b.payload(p.clone()),
@@ -544,12 +686,34 @@ pub fn run_seq(ctx: &mut Ctx, bk: BK, ops: &[Op]) {
                     Op::Unprotected(h) => m.unprot = h.clone(),
                     Op::Payload(p) => m.payload = Some(p.clone()),
                     Op::Tag(t) => m.tag = t.clone(),
+                    Op::CreateTag { aad, ret, .. } => {
+                        let pl = match &m.payload {
+                            Some(p) => p.clone(),
+                            None => return Some(true),
+                        };
+                        set_want(structure("MAC0", &[&prot_slot(&m.prot), aad, &pl]));
+                        m.tag = ret.clone();
+                    }
                     _ => return None,
                 }
                 Some(false)
             },
             |b: coset::CoseMac0Builder, op: &Op| -> Option<coset::CoseMac0Builder> {
                 Some(match op {
+                    Op::CreateTag { aad, ret, fallible } => {
+                        let r = ret.clone();
+                        if *fallible {
+                            b.try_create_tag(aad, |d| -> Result<Vec<u8>, ()> {
+                                set_seen(d);
+                                Ok(r)
+                            }).ok()?
+                        } else {
+                            b.create_tag(aad, |d| {
+                                set_seen(d);
+                                r
+                            })
+                        }
+                    }
                     Op::Protected(h) => b.protected(capi::b_header(h)?),
                     Op::Unprotected(h) => b.unprotected(capi::b_header(h)?),
                     Op::Payload(p) => b.payload(p.clone()),
@@ -569,12 +733,30 @@ pub fn run_seq(ctx: &mut Ctx, bk: BK, ops: &[Op]) {
                     Op::Unprotected(h) => m.unprot = h.clone(),
                     Op::Ciphertext(c) => m.ct = Some(c.clone()),
                     Op::AddRecipient(r) => m.recipients.push(r.clone()),
+                    Op::CreateCiphertext { aad, ret, .. } => {
+                        set_want(structure("Encrypt", &[&prot_slot(&m.prot), aad]));
+                        m.ct = Some(ret.clone());
+                    }
                     _ => return None,
                 }
                 Some(false)
             },
             |b: coset::CoseEncryptBuilder, op: &Op| -> Option<coset::CoseEncryptBuilder> {
                 Some(match op {
+                    Op::CreateCiphertext { pt, aad, ret, fallible, .. } => {
+                        let r = ret.clone();
+                        if *fallible {
+                            b.try_create_ciphertext(pt, aad, |_p, d| -> Result<Vec<u8>, ()> {
+                                set_seen(d);
+                                Ok(r)
+                            }).ok()?
+                        } else {
+                            b.create_ciphertext(pt, aad, |_p, d| {
+                                set_seen(d);
+                                r
+                            })
+                        }
+                    }
                     Op::Protected(h) => b.protected(capi::b_header(h)?),
                     Op::Unprotected(h) => b.unprotected(capi::b_header(h)?),
                     Op::Ciphertext(c) => b.ciphertext(c.clone()),
@@ -593,12 +775,30 @@ pub fn run_seq(ctx: &mut Ctx, bk: BK, ops: &[Op]) {
                     Op::Protected(h) => m.prot = prot_of(h),
                     Op::Unprotected(h) => m.unprot = h.clone(),
                     Op::Ciphertext(c) => m.ct = Some(c.clone()),
+                    Op::CreateCiphertext { aad, ret, .. } => {
+                        set_want(structure("Encrypt0", &[&prot_slot(&m.prot), aad]));
+                        m.ct = Some(ret.clone());
+                    }
                     _ => return None,
                 }
                 Some(false)
             },
             |b: coset::CoseEncrypt0Builder, op: &Op| -> Option<coset::CoseEncrypt0Builder> {
                 Some(match op {
+                    Op::CreateCiphertext { pt, aad, ret, fallible, .. } => {
+                        let r = ret.clone();
+                        if *fallible {
+                            b.try_create_ciphertext(pt, aad, |_p, d| -> Result<Vec<u8>, ()> {
+                                set_seen(d);
+                                Ok(r)
+                            }).ok()?
+                        } else {
+                            b.create_ciphertext(pt, aad, |_p, d| {
+                                set_seen(d);
+                                r
+                            })
+                        }
+                    }
                     Op::Protected(h) => b.protected(capi::b_header(h)?),
                     Op::Unprotected(h) => b.unprotected(capi::b_header(h)?),
                     Op::Ciphertext(c) => b.ciphertext(c.clone()),
@@ -617,12 +817,34 @@ pub fn run_seq(ctx: &mut Ctx, bk: BK, ops: &[Op]) {
                     Op::Unprotected(h) => m.unprot = h.clone(),
                     Op::Ciphertext(c) => m.ct = Some(c.clone()),
                     Op::AddRecipient(r) => m.recipients.push(r.clone()),
+                    Op::CreateCiphertext { context, aad, ret, .. } => {
+                        if *context < 2 {
+                            return Some(true);
+                        }
+                        set_want(structure(enc_ctx(*context).1, &[&prot_slot(&m.prot), aad]));
+                        m.ct = Some(ret.clone());
+                    }
                     _ => return None,
                 }
                 Some(false)
             },
             |b: coset::CoseRecipientBuilder, op: &Op| -> Option<coset::CoseRecipientBuilder> {
                 Some(match op {
+                    Op::CreateCiphertext { context, pt, aad, ret, fallible } => {
+                        let r = ret.clone();
+                        let c = enc_ctx(*context).0;
+                        if *fallible {
+                            b.try_create_ciphertext(c, pt, aad, |_p, d| -> Result<Vec<u8>, ()> {
+                                set_seen(d);
+                                Ok(r)
+                            }).ok()?
+                        } else {
+                            b.create_ciphertext(c, pt, aad, |_p, d| {
+                                set_seen(d);
+                                r
+                            })
+                        }
+                    }
                     Op::Protected(h) => b.protected(capi::b_header(h)?),
                     Op::Unprotected(h) => b.unprotected(capi::b_header(h)?),
                     Op::Ciphertext(c) => b.ciphertext(c.clone()),
@@ -872,6 +1094,18 @@ fn op_name(op: &Op) -> &'static str {
         Op::PartyV(_) => "party_v_info",
         Op::SuppPubInfo(_) => "supp_pub_info",
         Op::AddSuppPrivInfo(_) => "add_supp_priv_info",
+        Op::CreateSignature { fallible: false, detached: None, .. } => "create_signature",
+        Op::CreateSignature { fallible: true, detached: None, .. } => "try_create_signature",
+        Op::CreateSignature { fallible: false, .. } => "create_detached_signature",
+        Op::CreateSignature { fallible: true, .. } => "try_create_detached_signature",
+        Op::AddCreatedSignature { fallible: false, detached: None, .. } => "add_created_signature",
+        Op::AddCreatedSignature { fallible: true, detached: None, .. } => "try_add_created_signature",
+        Op::AddCreatedSignature { fallible: false, .. } => "add_detached_signature",
+        Op::AddCreatedSignature { fallible: true, .. } => "try_add_detached_signature",
+        Op::CreateTag { fallible: false, .. } => "create_tag",
+        Op::CreateTag { fallible: true, .. } => "try_create_tag",
+        Op::CreateCiphertext { fallible: false, .. } => "create_ciphertext",
+        Op::CreateCiphertext { fallible: true, .. } => "try_create_ciphertext",
     }
 }
 
@@ -882,17 +1116,20 @@ impl Check for C19 {
     fn phases(&self, tier: Tier, b: f64) -> Vec<Phase> {
         let q = tier == Tier::Quick;
         vec![
-            Phase { name: "every call sequence of length <= 2 over the argument palette, for each of the 14 builders (19 incl. the key constructors)", cases: 19 * 40, exhaustive: true },
-            Phase { name: "every call sequence of length 3 for header / key / claims builders (thorough)", cases: if q { 0 } else { 3 * 40 * 40 }, exhaustive: true },
+            Phase { name: "every call sequence of length <= 2 over the argument palette, for each of the 14 builders (19 incl. the key constructors)", cases: 19 * 64, exhaustive: true },
+            Phase { name: "every call sequence of length 3 for header / key / claims builders (thorough)", cases: if q { 0 } else { 3 * 64 * 64 }, exhaustive: true },
             Phase { name: "random call sequences of length <= 12", cases: scale(if q { 60000 } else { 3000000 }, b), exhaustive: false },
         ]
     }
     fn run_case(&self, ctx: &mut Ctx, phase: usize, idx: u64) {
         match phase {
             0 => {
-                let bk = BUILDERS[(idx / 40) as usize];
+                let bk = BUILDERS[(idx / 64) as usize];
                 let pal = palette(bk, ctx);
-                let i = (idx % 40) as usize;
+                if pal.len() > 64 {
+                    ctx.harness_errors.push(format!("palette of {:?} has {} entries (> 64)", bk, pal.len()));
+                }
+                let i = (idx % 64) as usize;
                 if i == 0 {
                     run_seq(ctx, bk, &[]);
                 }
@@ -905,9 +1142,9 @@ impl Check for C19 {
                 }
             }
             1 => {
-                let bk = [BK::Header, BK::Key(0), BK::Claims][(idx / 1600) as usize];
+                let bk = [BK::Header, BK::Key(0), BK::Claims][(idx / 4096) as usize];
                 let pal = palette(bk, ctx);
-                let (i, j) = (((idx % 1600) / 40) as usize, (idx % 40) as usize);
+                let (i, j) = (((idx % 4096) / 64) as usize, (idx % 64) as usize);
                 if i >= pal.len() || j >= pal.len() {
                     return;
                 }
@@ -927,7 +1164,7 @@ impl Check for C19 {
         }
     }
     fn rule(&self) -> String {
-        "call sequences over every public setter/adder of the 14 builders (header, signature, sign, sign1, mac, mac0, encrypt, encrypt0, recipient, key with its five constructors and new(), claims set, party info, supplementary info, KDF context; the closure-taking create helpers are C06's subject) with an argument palette of empty, boundary and reserved values (labels 0,1,2,6,7,8 / 0..6 / claims 0,1,4,7,8,9 / private ids -65536, -65537, 0, 1, extremes): all sequences of length <= 2 (and length 3 for header/key/claims in thorough), plus random sequences of length <= 12. Oracle: a field-map model (setter replaces its field only, adder appends / inserts into the operation set, iv clears partial_iv and vice versa, protected(h) stores h without retained bytes, constructors populate exactly kty and the named parameters, reserved labels must panic and nothing else may); build() compared with the model through public fields. Non-trivial = distinct call sequences.".into()
+        "call sequences over every public setter/adder of the 14 builders (header, signature, sign, sign1, mac, mac0, encrypt, encrypt0, recipient, key with its five constructors and new(), claims set, party info, supplementary info, KDF context), including the closure-taking create/add helpers (their effect on the built value, the bytes handed to the closure given the builder's state at the call, and their documented refusals) with an argument palette of empty, boundary and reserved values (labels 0,1,2,6,7,8 / 0..6 / claims 0,1,4,7,8,9 / private ids -65536, -65537, 0, 1, extremes): all sequences of length <= 2 (and length 3 for header/key/claims in thorough), plus random sequences of length <= 12. Oracle: a field-map model (setter replaces its field only, adder appends / inserts into the operation set, iv clears partial_iv and vice versa, protected(h) stores h without retained bytes, constructors populate exactly kty and the named parameters, reserved labels must panic and nothing else may); build() compared with the model through public fields. Non-trivial = distinct call sequences.".into()
     }
     fn assumptions(&self) -> Vec<String> {
         vec!["CoseKdfContext is observed through its encoding (private fields)".into(), "HeaderBuilder::value is modelled as refusing labels 1-7 (the property statement and the code; the doc comment says 1-6)".into()]
